@@ -41,6 +41,11 @@ def concretise(req):
                  [dict(name='page_size', type='int32', number=3), dict(name='page_token', number=5), dict(name='filter', required=True, number=1)]),
             dict(name='ListResp', fields=[dict(name='items', type='Item', repeated=True), dict(name='next_page_token')]),
             dict(name='Meta', fields=[dict(name='p', type='int32')])]
+    if req.get('extra') == 'subpkg':
+        # a target file in the proto sub-package <pkg>.admin, used by a root message: protoc lists it BEFORE the root files
+        files.append(dict(name=f'{pdir}/admin/adm.proto', package=pkg + '.admin', imports=[],
+                          messages=[dict(name='AdminThing', fields=[dict(name='name')])]))
+        msgs[0]['fields'].append(dict(name='adm', type=f'.{pkg}.admin.AdminThing'))
     names = []
     for i, f in enumerate(req['files']):
         fd = dict(name=f"{pdir}/{f['proto']}.proto", package=pkg, messages=[], services=[])
@@ -114,7 +119,8 @@ def project_files(res, root):
     inroot = [x for x in names if x[:n] == r]
     return dict(
         names=names,
-        types=sorted(x for x in inroot if len(x) == n + 2 and x[n] == 'types' and x[-1] != '__init__.py'),
+        # types modules of the package and of its proto sub-packages (<root>/[<sub>/...]types/<module>.py)
+        types=sorted(x for x in inroot if len(x) >= n + 2 and x[-2] == 'types' and x[-1] != '__init__.py' and 'services' not in x[n:]),
         svcpkgs=sorted(set(tuple(x[:n + 2]) for x in inroot if len(x) > n + 2 and x[n] == 'services')),
         transports=sorted(x for x in inroot if len(x) == n + 4 and x[n] == 'services' and x[n + 2] == 'transports'
                           and x[-1] in ('grpc.py', 'grpc_asyncio.py', 'rest.py', 'rest_base.py', 'rest_asyncio.py')),
